@@ -54,6 +54,9 @@ def crash_sig(prop, entry, obs):
         kind = "overflow" if ("overflow" in msg and "attempt to" in msg) else "panic"
         f, _, func = obs.panic_file.partition("|")
         func = re.sub(r"\{\{closure\}\}", "closure", func).replace(" ", "")
+        # the typed array readers are one mechanism per element family, not one per width
+        func = re.sub(r"parse_as_list_[iu]\d+$", "parse_as_list_<int>", func)
+        func = re.sub(r"parse_as_list_f\d+$", "parse_as_list_<float>", func)
         where = func if func and func != "?" else "entry=" + entry
         return "%s:%s:%s:%s:%s" % (prop, kind, repo_rel(f), where, norm_msg(msg))
     if obs.outcome == "died":
